@@ -374,6 +374,7 @@ class Controller:
     ) = None
 
     _random_address: hci.Address = hci.Address('00:00:00:00:00:00')
+    _command_status_sent: bool = False
 
     def __init__(
         self,
@@ -493,7 +494,19 @@ class Controller:
     def on_hci_command_packet(self, command: hci.HCI_Command) -> None:
         handler_name = f'on_{command.name.lower()}'
         handler = getattr(self, handler_name, self.on_hci_command)
-        result: hci.HCI_ReturnParameters | None = handler(command)
+        result: hci.HCI_ReturnParameters | None
+        self._command_status_sent = False
+        try:
+            result = handler(command)
+        except Exception:
+            logger.exception(f'!!! exception in handler for {command.name}')
+            if self._command_status_sent:
+                # The command has already been answered
+                return
+            # Every command must be answered, even if it could not be processed
+            result = hci.HCI_StatusReturnParameters(
+                hci.HCI_ErrorCode.UNSPECIFIED_ERROR_ERROR
+            )
         if isinstance(command, hci.HCI_SyncCommand):
             if result is None:
                 logger.error("Sync command handlers should return parameters, got None")
@@ -537,6 +550,7 @@ class Controller:
             asyncio.get_running_loop().call_soon(self.host.on_packet, bytes(packet))
 
     def _send_hci_command_status(self, status: int, op_code: int) -> None:
+        self._command_status_sent = True
         self.send_hci_packet(
             hci.HCI_Command_Status_Event(
                 status=status, num_hci_command_packets=1, command_opcode=op_code
